@@ -149,6 +149,26 @@ func init() {
 		} else {
 			sb.WriteString(untranslatable("filterWholeLen"))
 		}
+		// the prefix `--ignore-case` puts in front of the regular expression
+		icPrefix, icOK := "", false
+		if fd := c.Func("cmd/helpers/extractorBuilder.go", "BuildMatcherFromArguments"); fd != nil {
+			ast.Inspect(fd, func(n ast.Node) bool {
+				if be, ok := n.(*ast.BinaryExpr); ok && be.Op == token.ADD {
+					if bl, ok := be.X.(*ast.BasicLit); ok && bl.Kind == token.STRING {
+						if v, ok := StringLit(bl); ok {
+							icPrefix, icOK = v, true
+						}
+					}
+				}
+				return true
+			})
+		}
+		if icOK {
+			fmt.Fprintf(&sb, "def icPrefix : String := %s\n", leanStr(icPrefix))
+		} else {
+			sb.WriteString(untranslatable("icPrefix"))
+		}
+		c.Fingerprint("cmd/helpers/extractorBuilder.go", "BuildMatcherFromArguments")
 		c.Fingerprint("cmd/filter.go", "filterFunction")
 		c.Fingerprint(rel, "StrLen")
 		c.Fingerprint(rel, "WrapIndices")
